@@ -248,6 +248,47 @@ func genCert() {
 	certPool.AddCert(leaf)
 }
 
+var (
+	bigMu    sync.Mutex
+	bigCerts = map[int]tls.Certificate{}
+	bigPools = map[int]*x509.CertPool{}
+)
+
+// BigCertTLS returns server / client configs around a certificate carrying kb kilobytes of padding in a
+// non-critical extension (a "long certificate chain": the server's first flight outgrows 3x the ClientHello).
+// Generate outside any bubble.
+func BigCertTLS(kb int) (server, client *tls.Config) {
+	bigMu.Lock()
+	defer bigMu.Unlock()
+	if _, ok := bigCerts[kb]; !ok {
+		key, err := ecdsa.GenerateKey(elliptic.P256(), rand.Reader)
+		if err != nil {
+			panic(err)
+		}
+		pad := make([]byte, kb*1024)
+		rand.Read(pad) // incompressible
+		tmpl := &x509.Certificate{
+			SerialNumber: big.NewInt(int64(100 + kb)), Subject: pkix.Name{CommonName: "verif.test"},
+			NotBefore: time.Unix(0, 0), NotAfter: time.Now().Add(100 * 365 * 24 * time.Hour),
+			KeyUsage: x509.KeyUsageDigitalSignature | x509.KeyUsageCertSign, ExtKeyUsage: []x509.ExtKeyUsage{x509.ExtKeyUsageServerAuth},
+			BasicConstraintsValid: true, IsCA: true, DNSNames: []string{"verif.test", "localhost"},
+			ExtraExtensions: []pkix.Extension{{Id: []int{1, 3, 6, 1, 4, 1, 55555, 1}, Value: pad}},
+		}
+		der, err := x509.CreateCertificate(rand.Reader, tmpl, tmpl, &key.PublicKey, key)
+		if err != nil {
+			panic(err)
+		}
+		leaf, _ := x509.ParseCertificate(der)
+		bigCerts[kb] = tls.Certificate{Certificate: [][]byte{der}, PrivateKey: key, Leaf: leaf}
+		pool := x509.NewCertPool()
+		pool.AddCert(leaf)
+		bigPools[kb] = pool
+	}
+	server = &tls.Config{Certificates: []tls.Certificate{bigCerts[kb]}, NextProtos: []string{"h3", "verif"}, MinVersion: tls.VersionTLS13}
+	client = &tls.Config{RootCAs: bigPools[kb], ServerName: "verif.test", NextProtos: []string{"h3"}, MinVersion: tls.VersionTLS13}
+	return
+}
+
 // ServerTLS / ClientTLS: fresh configs sharing one ECDSA P-256 certificate (generated once, outside any bubble).
 func ServerTLS(alpn ...string) *tls.Config {
 	certOnce.Do(genCert)
